@@ -539,6 +539,10 @@ Fixpoint rp_sep (s : bytes) : bool :=
   | c :: r => (if c =? 41 then match r with d :: _ => negb (is_wordch d) | [] => true end else true) && rp_sep r
   end.
 
+(* (0) size assumption of every theorem about the compiler: the string fits a C object (|s| < 2^62), so
+   that the 64-bit counters and the signed index cannot wrap on their own *)
+Definition len_ok (s : bytes) : Prop := (Z.of_nat (length s) < 4611686018427387904)%Z.
+
 (* ---------- RFC 7950 section 7.20.2 / 14:
      if-feature-expr   = if-feature-term [sep or-keyword sep if-feature-expr]
      if-feature-term   = if-feature-factor [sep and-keyword sep if-feature-term]
@@ -568,6 +572,8 @@ with rfactor : iexp -> bytes -> Prop :=
 | RF_not e w r : is_sep w -> rfactor e r -> rfactor (Not e) (KW_NOT ++ w ++ r)
 | RF_paren e w1 w2 r : is_optsep w1 -> is_optsep w2 -> rexpr e r -> rfactor e ([40] ++ w1 ++ r ++ w2 ++ [41])
 | RF_id x : name_ok x -> rfactor (F x) x.
+
+Definition names_ok (e : iexp) : Prop := Forall name_ok (feats e).
 
 (* two renderers: every operator application in parentheses / only the parentheses the grammar needs *)
 Fixpoint render_full (e : iexp) : bytes :=
